@@ -1,5 +1,5 @@
 //! C07: PSET serialization round-trips and re-serialization is a fixpoint.
-//! case: `C07 <mode> <caps> <pt> <pk> <xonly> <btctx> <xpub> <rip> <h160> <payload...>` (see coq/Extract/RunC07.v)
+//! case: `C07 <mode> <caps> <pt> <pk> <xonly> <rip> <h160> <payload...>` (see coq/Extract/RunC07.v)
 //!   modes bin | built | rejdup | rejmissing | rejcount | rejpreimage  : payload = hex of the bytes (the model treats them alike;
 //!         the mode tells the predicate what the input was constructed to be)
 //!   text : payload = base64 text          elip : payload = hex bytes, hex asset id / -, hex value, selector 0..3
@@ -66,12 +66,12 @@ fn unparse(maps: &[Vec<RPair>]) -> Vec<u8> {
 
 // ------------------------------------------------------------------------------------------------ oracles
 #[derive(Default)]
-struct Oracles { pt: Vec<Vec<u8>>, pk: Vec<Vec<u8>>, xo: Vec<Vec<u8>>, btx: Vec<Vec<u8>>, xpub: Vec<Vec<u8>>, rip: Vec<(Vec<u8>, Vec<u8>)>, h160: Vec<(Vec<u8>, Vec<u8>)> }
+struct Oracles { pt: Vec<Vec<u8>>, pk: Vec<Vec<u8>>, xo: Vec<Vec<u8>>, rip: Vec<(Vec<u8>, Vec<u8>)>, h160: Vec<(Vec<u8>, Vec<u8>)> }
 fn push_u(v: &mut Vec<Vec<u8>>, x: &[u8]) { if !v.iter().any(|y| y == x) { v.push(x.to_vec()); } }
 fn probe(o: &mut Oracles, x: &[u8]) {
     if x.len() == 33 || x.len() == 65 { if zkp::PublicKey::from_slice(x).is_ok() { push_u(&mut o.pk, x); } }
     if x.len() == 32 { if XOnlyPublicKey::from_slice(x).is_ok() { push_u(&mut o.xo, x); } }
-    if x.len() == 78 { if Xpub::decode(x).is_ok() { push_u(&mut o.xpub, x); } }
+    if x.len() == 78 { probe(o, &x[45..]); }     // the compressed key inside an xpub
 }
 fn oracles(b: &[u8]) -> Oracles {
     let mut o = Oracles::default();
@@ -82,7 +82,6 @@ fn oracles(b: &[u8]) -> Oracles {
                 probe(&mut o, k); probe(&mut o, v);
                 if k.len() >= 32 { probe(&mut o, &k[..32]); }
                 if k.len() >= 33 { probe(&mut o, &k[1..33]); }
-                if v.len() >= 10 && v.len() < 300_000 { if bitcoin::consensus::deserialize::<bitcoin::Transaction>(v).is_ok() { push_u(&mut o.btx, v); } }
                 if (*t == 0x0a || *t == 0x0c) && v.len() <= 0x10001 {
                     let r = ripemd160::Hash::hash(v).to_byte_array().to_vec(); if !o.rip.iter().any(|(x, _)| x == v) { o.rip.push((v.clone(), r)); }
                     let h = hash160::Hash::hash(v).to_byte_array().to_vec(); if !o.h160.iter().any(|(x, _)| x == v) { o.h160.push((v.clone(), h)); }
@@ -95,7 +94,7 @@ fn oracles(b: &[u8]) -> Oracles {
 fn kvlist(l: &[(Vec<u8>, Vec<u8>)]) -> String { if l.is_empty() { "-".into() } else { l.iter().map(|(k, v)| format!("{}:{}", hex(k), hex(v))).collect::<Vec<_>>().join(",") } }
 fn head(mode: &str, b: &[u8]) -> String {
     let o = oracles(b);
-    format!("C07 {} {} {} {} {} {} {} {} {}", mode, caps(), hexlist(&o.pt), hexlist(&o.pk), hexlist(&o.xo), hexlist(&o.btx), hexlist(&o.xpub), kvlist(&o.rip), kvlist(&o.h160))
+    format!("C07 {} {} {} {} {} {} {}", mode, caps(), hexlist(&o.pt), hexlist(&o.pk), hexlist(&o.xo), kvlist(&o.rip), kvlist(&o.h160))
 }
 fn hx(b: &[u8]) -> String { if b.is_empty() { "-".into() } else { hex(b) } }
 /// a commitment-typed value ("pset" subtype 01 / 03 / 0b, no key data) shorter than 33 bytes: Generator::from_slice and
@@ -260,18 +259,18 @@ fn eval_shortcomm(b: &[u8]) -> Out {
 
 pub fn eval(case: &str) -> Out {
     let w: Vec<&str> = case.split(' ').collect();
-    if w.len() < 11 { return Out::ok("harnesserr args".into()); }
+    if w.len() < 9 { return Out::ok("harnesserr args".into()); }
     let mode = w[1];
     let arg = |i: usize| -> Option<Vec<u8>> { let s = *w.get(i)?; if s == "-" { Some(vec![]) } else { unhex(s) } };
     match mode {
-        "text" => eval_text(if w[10] == "-" { "" } else { w[10] }),
+        "text" => eval_text(if w[8] == "-" { "" } else { w[8] }),
         "elip" => {
-            if w.len() != 14 { return Out::ok("harnesserr args".into()); }
-            match (arg(10), arg(11), arg(12), w[13].parse::<u32>().ok()) { (Some(b), Some(a), Some(v), Some(s)) => eval_elip(&b, &a, &v, s), _ => Out::ok("harnesserr hex".into()) }
+            if w.len() != 12 { return Out::ok("harnesserr args".into()); }
+            match (arg(8), arg(9), arg(10), w[11].parse::<u32>().ok()) { (Some(b), Some(a), Some(v), Some(s)) => eval_elip(&b, &a, &v, s), _ => Out::ok("harnesserr hex".into()) }
         }
         "vcanon" => Out::ok("harnesserr vcanon-is-model-only".into()),
-        "shortcomm" => eval_shortcomm(&arg(10).unwrap_or_default()),
-        _ => match arg(10) { Some(b) => if short_commitment(&b) && !length_checked() { Out::ok("harnesserr refused: a commitment value shorter than 33 bytes would be read out of bounds".into()) } else { eval_bin(mode, &b) }, None => Out::ok("harnesserr hex".into()) },
+        "shortcomm" => eval_shortcomm(&arg(8).unwrap_or_default()),
+        _ => match arg(8) { Some(b) => if short_commitment(&b) && !length_checked() { Out::ok("harnesserr refused: a commitment value shorter than 33 bytes would be read out of bounds".into()) } else { eval_bin(mode, &b) }, None => Out::ok("harnesserr hex".into()) },
     }
 }
 
